@@ -65,6 +65,10 @@ SORT_KEYS = {
 }
 
 
+def _raising_key(item):
+    raise ValueError("key")
+
+
 class GenOnce:
     """a one-shot iterable that is not a Collection (no len): like a generator, it is exhausted after the
     first pass, so code that iterates its argument twice loses the items the second time"""
@@ -128,6 +132,16 @@ def apply_op(op, lst, new, before, focus_setter=None):
             lst.reverse()
         elif k == "sort":
             lst.sort(key=SORT_KEYS[op[1]], reverse=op[2])
+        elif k == "sort_bad":
+            # calls a built-in list rejects (whatever the length, for the keyword ones)
+            if op[1] == "key_not_callable":
+                lst.sort(key=5)
+            elif op[1] == "key_raises":
+                lst.sort(key=_raising_key)
+            elif op[1] == "unknown_kw":
+                lst.sort(cmp=None)
+            else:
+                lst.sort(5)
         elif k == "iadd":
             lst += new
         elif k == "iadd_gen":
@@ -259,6 +273,43 @@ class FSFLWNoCb(Flavour):
         return ml, ml
 
 
+class FMFLSub(Flavour):
+    """callbacks supplied by overriding the _modified / _focus_changed hooks in a subclass (the pattern urwid's
+    own walkers use) instead of the set_*_callback() setters"""
+
+    name = "MonitoredFocusList(subclass-hooks)"
+
+    def make(self, toks, focus, log):
+        from urwid.widget.monitored_list import MonitoredFocusList
+
+        class Sub(MonitoredFocusList):
+            def _modified(sub):  # noqa: N805
+                log.append(("mod", [id(x) for x in sub]))
+
+            def _focus_changed(sub, new_focus):  # noqa: N805
+                log.append(("foc", new_focus))
+
+        ml = Sub(toks, focus=focus if toks else 0)
+        return ml, ml
+
+
+class FSFLWSub(Flavour):
+    name = "SimpleFocusListWalker(subclass-hooks)"
+
+    def make(self, toks, focus, log):
+        import urwid
+
+        class Sub(urwid.SimpleFocusListWalker):
+            def _focus_changed(sub, new_focus):  # noqa: N805
+                log.append(("foc", new_focus))
+
+        ml = Sub(toks)
+        if toks and focus:
+            ml.focus = focus
+        urwid.connect_signal(ml, "modified", lambda: log.append(("mod", [id(x) for x in ml])))
+        return ml, ml
+
+
 class FSLW(Flavour):
     name = "SimpleListWalker"
     focus_none_when_empty = False
@@ -320,7 +371,7 @@ class FContainer(Flavour):
         return ml, c
 
 
-FLAVOURS = {f.name: f for f in [FMFL(), FML(), FSFLW(), FSFLWNoCb(), FSLW(), FContainer("Pile"), FContainer("Columns"), FContainer("GridFlow")]}
+FLAVOURS = {f.name: f for f in [FMFL(), FMFLSub(), FML(), FSFLW(), FSFLWNoCb(), FSFLWSub(), FSLW(), FContainer("Pile"), FContainer("Columns"), FContainer("GridFlow")]}
 
 
 class CTok(tuple):
@@ -371,6 +422,7 @@ def universe(idx=IDX, bounds=SL_BOUNDS, steps=STEPS, full=True):
     ops += [["extend", k] for k in (0, 1, 3)] + [["extend_tuple", 2], ["extend_gen", 2], ["iadd", 0], ["iadd", 2], ["iadd_gen", 2]]
     ops += [["remove", p] for p in range(6)]
     ops += [["sort", kk, r] for kk in SORT_KEYS for r in (False, True)]
+    ops += [["sort_bad", kind] for kind in ("key_not_callable", "key_raises", "unknown_kw", "positional")]
     ops += [["imul", n] for n in (-1, 0, 1, 2, 3)]
     if full:
         ops += [["set", "a"], ["del", "a"], ["insert", "a"], ["pop", "a"], ["imul", "a"], ["extend_nonit"], ["setslice_nonit", [None, None, None]], ["focus", "a"], ["focus", None]]
@@ -389,6 +441,8 @@ def rand_op(rng, n):
 
     if r < 0.02:
         return [rng.choice(["set", "del", "insert", "pop", "focus"]), rng.choice([*BIG, None])]
+    if r < 0.03:
+        return ["sort_bad", rng.choice(["key_not_callable", "key_raises", "unknown_kw", "positional"])]
     if r < 0.05:
         return [rng.choice(["set_twin", "set_twin", "insert_twin"]), ri()]
     if r < 0.10:
